@@ -195,7 +195,8 @@ def run(F, R, tier, M=None):
             "may escape main: " + "; ".join("%s via %s" % (t, " -> ".join(M.witness(mkey, t))) for t in sorted(mt)),
             key="A2|main|" + ",".join(sorted(mt)))
     nx = [k for k, f in F.functions.items() if f.get("nx")]
-    bad = [k for k in nx if k in M.terminates]
+    # a helper whose every call was inlined into its callers (fact normalisation) is judged there
+    bad = [k for k in nx if k in M.terminates and k not in F.superseded]
     for k in bad:
         f = F.functions[k]
         t = sorted(M.terminates[k])[0]
